@@ -39,6 +39,10 @@ def render(items: list[Item], depth: int = 0) -> list[str]:
             out.append(f"{ind}Call macro: {it[1]}")
         elif k == "blank":
             out.append("")
+        elif k == "endblock":
+            out.append(f"{ind}End block")
+        elif k == "comment":
+            out.append(f"{ind}# a comment")
         elif k == "macro":
             out.append(f"{ind}Macro: {it[1]}")
             out += render(it[2], depth + 1)
@@ -115,8 +119,10 @@ def expand(items: list[Item]) -> dict[str, Any]:
                     raise Stop("recursive", name)
                 calls["n"] += 1
                 run(table[name], False)
-            elif k in ("watch", "alarm", "block"):
-                raise AssertionError("reference expansion covers straight-line bodies only")
+            elif k == "block":
+                run(it[2], False)             # a Block whose last line is End block: its lines, then on
+            elif k in ("watch", "alarm"):
+                raise AssertionError("reference expansion covers straight-line bodies and Blocks only")
     try:
         run(items, True)
         return {"marks": marks, "stop": None, "name": None, "calls": calls["n"]}
@@ -137,7 +143,85 @@ def _simple(rng: random.Random, mark_no: list[int]) -> Item:
     return ("cmd", rng.choice(["CmdA", "CmdB"]))
 
 
-def gen_acyclic(rng: random.Random, max_top: int = 9) -> list[Item]:
+def gen_block(rng: random.Random, mark_no: list[int], block_no: list[int], depth: int = 0) -> Item:
+    """`Block: Kn` with 1-3 simple lines, possibly one nested Block, closed by `End block` as its last line."""
+    block_no[0] += 1
+    name = f"K{block_no[0]}"
+    body: list[Item] = []
+    for _ in range(rng.randrange(1, 4)):
+        body.append(_simple(rng, mark_no))
+    if depth == 0 and rng.random() < 0.25:
+        body.insert(rng.randrange(len(body) + 1), gen_block(rng, mark_no, block_no, depth + 1))
+    mark_no[0] += 1
+    body.insert(rng.randrange(len(body) + 1), ("mark", f"m{mark_no[0]}"))
+    body.append(("endblock",))
+    return ("block", name, body)
+
+
+def body_marks(items: list[Item]) -> list[str]:
+    """Marks of a straight-line body with Blocks, in execution order."""
+    out: list[str] = []
+    for it in items:
+        if it[0] == "mark":
+            out.append(it[1])
+        elif it[0] == "block":
+            out += body_marks(it[2])
+    return out
+
+
+def gen_alarm_repeat(rng: random.Random) -> list[Item]:
+    """`Alarm` with an always-true condition whose body is straight-line with Blocks: it fires again and again."""
+    mark_no, block_no = [0], [0]
+    body: list[Item] = []
+    for _ in range(rng.randrange(2, 5)):
+        body.append(gen_block(rng, mark_no, block_no) if rng.random() < 0.5 else _simple(rng, mark_no))
+    if not any(i[0] == "block" for i in body):
+        body.insert(rng.randrange(len(body) + 1), gen_block(rng, mark_no, block_no))
+    if not body_marks([i for i in body if i[0] == "mark"]):
+        mark_no[0] += 1
+        body.append(("mark", f"m{mark_no[0]}"))
+    pre: list[Item] = [("mark", "p0")] if rng.random() < 0.5 else []
+    return pre + [("alarm", "T0 >= 0", body)]
+
+
+def gen_empty_openers(rng: random.Random) -> list[Item]:
+    """Nested scopes whose LAST line is an opener with an empty body (Watch / Alarm / Macro definition),
+    followed by lines at a smaller indentation: the source text's indentation decides the scope."""
+    mark_no, block_no = [0], [0]
+
+    def mk() -> Item:
+        mark_no[0] += 1
+        return ("mark", f"m{mark_no[0]}")
+
+    def empty() -> Item:
+        k = rng.choice(["watch", "watch", "alarm", "macro"])
+        return ("macro", "E", []) if k == "macro" else (k, f"T{rng.randrange(3)} >= {rng.randrange(0, 3)}", [])
+
+    def scope(depth: int) -> Item:
+        kind = rng.choice(["watch", "block"] if depth < 2 else ["watch"])
+        body: list[Item] = [mk() for _ in range(rng.randrange(0, 3))]
+        if depth < 2 and rng.random() < 0.6:
+            body.append(scope(depth + 1))
+            body += [mk() for _ in range(rng.randrange(0, 2))]
+        if rng.random() < 0.75:
+            body.append(empty())                      # the empty opener is the last line of this scope
+        elif not body:
+            body.append(mk())
+        if kind == "block":
+            block_no[0] += 1
+            if rng.random() < 0.8 and body[-1][0] in ("watch", "alarm", "macro"):
+                # lines after the nested scope, at the Block's level, then End block
+                return ("block", f"K{block_no[0]}", [("watch", "T0 >= 0", body), mk(), ("endblock",)])
+            return ("block", f"K{block_no[0]}", body + [("endblock",)])
+        return (kind, f"T{rng.randrange(3)} >= 0", body)
+    items: list[Item] = [mk()] if rng.random() < 0.5 else []
+    for _ in range(rng.randrange(1, 3)):
+        items.append(scope(0))
+        items.append(mk())
+    return items
+
+
+def gen_acyclic(rng: random.Random, max_top: int = 9, blocks: bool = False) -> list[Item]:
     """Definitions / redefinitions / calls / marks at top level; the body of a macro of rank r calls only
     names of lower rank, so no table that can arise is cyclic.  Some calls come before the definition."""
     k = rng.randrange(1, 5)
@@ -145,11 +229,15 @@ def gen_acyclic(rng: random.Random, max_top: int = 9) -> list[Item]:
     mark_no = [0]
     items: list[Item] = []
 
+    block_no = [0]
+
     def body(rank: int) -> list[Item]:
         b: list[Item] = []
         for _ in range(rng.randrange(1, 5)):
             if rank > 0 and rng.random() < 0.4:
                 b.append(("call", names[rng.randrange(rank)]))
+            elif blocks and rng.random() < 0.45:
+                b.append(gen_block(rng, mark_no, block_no))
             else:
                 b.append(_simple(rng, mark_no))
         if not any(i[0] == "mark" for i in b):
